@@ -257,15 +257,19 @@ class ProjectedGradientDescentBacktracking(ProjectedGradientDescent):
             alphas = []
         error_values = []
 
+        # metric of the variables w.r.t. the stacked vector, in which func_proj projects
+        metric = self._calc_metric_of_variables()
+
         is_doing = True
         for k in range(1, max_iteration + 1):
             # shift variables
             if x_next is not None:
                 x_prev = x_next
 
-            y_prev = (
-                self.func_proj(x_prev - loss_function.gradient(x_prev) / mu) - x_prev
-            )
+            gradient = loss_function.gradient(x_prev)
+            if metric is not None:
+                gradient = np.linalg.solve(metric, gradient)
+            y_prev = self.func_proj(x_prev - gradient / mu) - x_prev
 
             alpha = 1.0
             while self._is_doing_for_alpha(x_prev, y_prev, alpha, gamma, loss_function):
